@@ -330,7 +330,22 @@ func run(c Case, payloads, frames0 [][]byte) []Event {
 		for j := range buf {
 			buf[j] = 0xA5
 		}
-		k, err := rd.Read(buf)
+		var k int
+		var err error
+		pan := ""
+		func() {
+			defer func() {
+				if p := recover(); p != nil {
+					pan = fmt.Sprint(p)
+				}
+			}()
+			k, err = rd.Read(buf)
+		}()
+		if pan != "" {
+			// a Read that panics is not a step of the specification: recorded and the case ends
+			evs = append(evs, Event{"ev": "Read", "n": n, "k": 0, "err": "panic", "panic": pan, "matches": []any{}})
+			return evs
+		}
 		ev := Event{"ev": "Read", "n": n, "k": k, "err": classOf(err), "matches": matches(payloads, buf[:k])}
 		var bad *compress.CorruptedDataErr
 		if errors.As(err, &bad) {
